@@ -36,3 +36,6 @@ func Harness_VMW_31_overdraft_save_overdraft() { wild = true; Harness_VM_31_over
 func Harness_VMW_32_two_overdraft_sends() { wild = true; Harness_VM_32_two_overdraft_sends(); wild = false }
 func Harness_VMW_33_send_all_after_receive() { wild = true; Harness_VM_33_send_all_after_receive(); wild = false }
 func Harness_VMW_34_two_assets() { wild = true; Harness_VM_34_two_assets(); wild = false }
+func Harness_VMW_35_send_all_overdraft_then_overdraft() { wild = true; Harness_VM_35_send_all_overdraft_then_overdraft(); wild = false }
+func Harness_VMW_36_two_balance_vars_one_account() { wild = true; Harness_VM_36_two_balance_vars_one_account(); wild = false }
+func Harness_VMW_37_number_var_from_json() { wild = true; Harness_VM_37_number_var_from_json(); wild = false }
